@@ -32,6 +32,57 @@ def _c(cid, rows, cols, height, agents, srange, queue, tl, gen="random", **kw):
     return dict(id=cid, ctor=ctor, **kw)
 
 
+INJ_PROPS = ["C01", "C03", "C04", "C05", "C07", "C09", "C11", "C12"]
+
+
+def _injected_generator(cfg):
+    """INJ: the states of the TLC model (every start cell / direction / request queue, mid-game states in which agent 0
+    already carries a shelf anywhere on the floor, and everything reachable from them within the model's depth) as start
+    states, handed out by a table-driven generator (state number key[1]).  The arrays take the dtypes of the state the
+    library's own generator produced, every other field is that state's, and the action mask is computed by the library."""
+    import jax.numpy as jnp
+
+    from harness import inject
+    from jumanji.environments.routing.robot_warehouse import utils
+    from jumanji.environments.routing.robot_warehouse.generator import RandomGenerator
+
+    inject.need(utils, "compute_action_mask")
+    k = cfg["ctor"]
+    states, _ = inject.dump_states(cfg["inject"][0], cfg["inject"][1], var=None, limit=None)
+    # states an episode continues from: not reached by a LAST step (collision, time limit), nor after one
+    live = {repr(st["s"]): st["s"] for st in states if st["last"]["type"] != 2 and not st["last"]["pl"]
+            and st["s"]["step_count"] < k["time_limit"]}
+    tab = inject.thin([live[r] for r in sorted(live)], cfg.get("limit"))
+    cfg["episodes"] = len(tab)
+    A = lambda f: np.array([f(s) for s in tab])          # noqa: E731
+    grid = A(lambda s: s["grid"])
+    ax, ay = A(lambda s: s["agents"]["position"]["x"]), A(lambda s: s["agents"]["position"]["y"])
+    adir, acar = A(lambda s: s["agents"]["direction"]), A(lambda s: s["agents"]["is_carrying"])
+    sx, sy = A(lambda s: s["shelves"]["position"]["x"]), A(lambda s: s["shelves"]["position"]["y"])
+    sreq, queue, steps = A(lambda s: s["shelves"]["is_requested"]), A(lambda s: s["request_queue"]), A(lambda s: s["step_count"])
+
+    class InjectedGenerator(RandomGenerator):
+        def __call__(self, key):
+            tpl = super().__call__(key)
+            j = key[1] % grid.shape[0]
+            like = lambda arr, t: jnp.asarray(arr)[j].astype(t.dtype).reshape(t.shape)      # noqa: E731
+            agents = inject.state_like(
+                tpl.agents, position=inject.state_like(tpl.agents.position, x=like(ax, tpl.agents.position.x),
+                                                       y=like(ay, tpl.agents.position.y)),
+                direction=like(adir, tpl.agents.direction), is_carrying=like(acar, tpl.agents.is_carrying))
+            shelves = inject.state_like(
+                tpl.shelves, position=inject.state_like(tpl.shelves.position, x=like(sx, tpl.shelves.position.x),
+                                                        y=like(sy, tpl.shelves.position.y)),
+                is_requested=like(sreq, tpl.shelves.is_requested))
+            g = like(grid, tpl.grid)
+            return inject.state_like(tpl, grid=g, agents=agents, shelves=shelves, request_queue=like(queue, tpl.request_queue),
+                                     step_count=like(steps, tpl.step_count), action_mask=utils.compute_action_mask(g, agents))
+
+    return InjectedGenerator(shelf_rows=k["shelf_rows"], shelf_columns=k["shelf_columns"], column_height=k["column_height"],
+                             num_agents=k["num_agents"], sensor_range=k["sensor_range"],
+                             request_queue_size=k["request_queue_size"])
+
+
 class Adapter(EnvAdapter):
     name = "RobotWarehouse"
     props = ("C01", "C03", "C04", "C05", "C07", "C09", "C10", "C11", "C12")
@@ -67,6 +118,9 @@ class Adapter(EnvAdapter):
                 _c("r1c3h2a2_s0q2_t7", 1, 3, 2, 2, 0, 2, 7, episodes=3, max_steps=10, policies=polm),             # own cell only
                 # generator-heavy: many resets with many agents on the smallest floor (start cells must be distinct)
                 _c("r1c3h1a6_s1q2_gen", 1, 3, 1, 6, 1, 2, 5, episodes=60, max_steps=0, policies=["random"], props=["C10"]),
+                # INJ: the states of the one-agent TLC model (every start, carrying states on every floor cell), all 5 actions
+                _c("inj_a1_t2", 1, 3, 1, 1, 1, 1, 2, inject=("MC_RobotWarehouse", "MC_RobotWarehouse_quick.cfg"), episodes=0,
+                   max_steps=1, post_terminal=0, policies=["random"], limit=1200, props=INJ_PROPS),
             ]
         out = []
         for t in (1, 2, 3, 7):
@@ -97,6 +151,11 @@ class Adapter(EnvAdapter):
             _c("r1c3h1a6_s1q2_gen", 1, 3, 1, 6, 1, 2, 5, episodes=400, max_steps=0, policies=["random"], props=["C10"]),
             _c("r1c3h1a8_s1q2_gen", 1, 3, 1, 8, 1, 2, 5, episodes=300, max_steps=0, policies=["random"], props=["C10"]),
             _c("default_gen", 2, 3, 8, 4, 1, 8, 500, gen="default", episodes=300, max_steps=0, policies=["random"], props=["C10"]),
+            _c("inj_a1_t2", 1, 3, 1, 1, 1, 1, 2, inject=("MC_RobotWarehouse", "MC_RobotWarehouse_quick.cfg"), episodes=0,
+               max_steps=2, post_terminal=0, policies=["random"], limit=6000, props=INJ_PROPS),
+            # two agents next to each other around a shelf slot: all 25 joint actions (collisions, swaps, follow-the-leader)
+            _c("inj_a2_t3", 1, 3, 1, 2, 1, 1, 3, inject=("MC_RobotWarehouse", "MC_RobotWarehouse_thorough_pair.cfg"), episodes=0,
+               max_steps=1, post_terminal=0, policies=["random"], limit=4000, props=INJ_PROPS),
         ]
         return out
 
@@ -107,15 +166,26 @@ class Adapter(EnvAdapter):
         k = cfg["ctor"]
         if k["gen"] == "default":
             return RobotWarehouse(time_limit=k["time_limit"])
+        if "inject" in cfg:
+            return RobotWarehouse(generator=_injected_generator(cfg), time_limit=k["time_limit"])
         gen = RandomGenerator(shelf_rows=k["shelf_rows"], shelf_columns=k["shelf_columns"],
                               column_height=k["column_height"], num_agents=k["num_agents"],
                               sensor_range=k["sensor_range"], request_queue_size=k["request_queue_size"])
         return RobotWarehouse(generator=gen, time_limit=k["time_limit"])
 
+    def episode_key(self, cfg, ep, seed):
+        if "inject" not in cfg:
+            return None
+        from harness import inject
+
+        return inject.ep_key(ep)
+
     def cfg_record(self, cfg, env):
         k = cfg["ctor"]
-        return {f: k[f] for f in ("shelf_rows", "shelf_columns", "column_height", "num_agents", "sensor_range",
-                                  "request_queue_size", "time_limit")}
+        rec = {f: k[f] for f in ("shelf_rows", "shelf_columns", "column_height", "num_agents", "sensor_range",
+                                 "request_queue_size", "time_limit")}
+        rec["injected"] = "inject" in cfg        # episodes start mid-way: the deadline is read off the state's own counter
+        return rec
 
     # ---- probes ---------------------------------------------------------------------------
     def probe_sample(self, env, state, obs, rng, k):
